@@ -526,6 +526,7 @@ fn search(r: &mut Rng, n: usize) {
     multi_corpus(&mut rep, &mut ev);
     routing_corpus(&mut rep, &mut ev, r);
     round5_corpus(&mut rep, &mut ev);
+    round6_corpus(&mut rep, &mut ev);
     let mut i = 0;
     while i < n {
         i += 1;
@@ -1178,6 +1179,50 @@ fn reduce_table_case(rep: &mut Rep, ev: &mut usize, f: &str, g: &str, x: &Value,
             let class = classify(&hand, &imp, x, 1, f, "/⊞");
             rep.report("/⊞", &class, &format!("{f} {g}"), vname, &src.replace('\n', " ; "), &[x, y], &show_h(&hand), &show_r(&imp));
         }
+    }
+}
+
+/// an argument that is a MAP must be iterated like its values: the result of `prog` on the map
+/// is a valid value and equals (keys aside) the result on the plain values (41233b4, a57afbd, 2fb2751)
+fn map_arg_case(rep: &mut Rep, ev: &mut usize, prog: &str, keys: &Value, vals: &Value, other: Option<&Value>) {
+    let Ok(m) = run1("map", &[keys.clone(), vals.clone()], ev) else { return };
+    let mut a_map = vec![m];
+    let mut a_plain = vec![vals.clone()];
+    if let Some(o) = other {
+        a_map.push(o.clone());
+        a_plain.push(o.clone());
+    }
+    let plain = run1(prog, &a_plain, ev);
+    let hand = match &plain {
+        Ok(v) => H::V(v.clone()),
+        Err(e) => H::E(e.clone()),
+    };
+    // run1 also validates the result (shape, data, key count); keys that fit the rows may stay on
+    // the result: they are taken off before the values are compared
+    let imp = run1(prog, &a_map, ev).map(|v| run1("◌°map", &[v.clone()], ev).unwrap_or(v));
+    rep.count("map-arg");
+    if !agrees(&hand, &imp) {
+        let args: Vec<&Value> = a_map.iter().collect();
+        let class = if matches!(&imp, Err(e) if e.starts_with("MALFORMED")) { "malformed-result" } else { "map-keys" };
+        rep.report("map-arg", class, prog, "direct", prog, &args, &show_h(&hand), &show_r(&imp));
+    }
+}
+
+fn round6_corpus(rep: &mut Rep, ev: &mut usize) {
+    let k3 = num(&[3], &[1., 2., 3.]);
+    let v3 = num(&[3], &[4., 5., 6.]);
+    let k1 = num(&[1], &[7.]);
+    let v1 = num(&[1], &[8.]);
+    let l3 = num(&[3], &[10., 20., 30.]);
+    for p in ["∵¯", "≡⇌", "≡□", "∵(⊟⟜¯)", "≡(⊂0)", "/+", "\\+", "/⊂", "≡≡¯", "⍚⇌", "∵(+1)"] {
+        map_arg_case(rep, ev, p, &k3, &v3, None);
+        map_arg_case(rep, ev, p, &k1, &v1, None);
+    }
+    // the other argument gives the result more rows than the map has keys
+    for p in ["≡⊂", "∵⊟", "≡+", "⊞+", "≡(⊂⇌)", "∵(⊟⊙¯)"] {
+        map_arg_case(rep, ev, p, &k1, &v1, Some(&l3));
+        map_arg_case(rep, ev, p, &k3, &v3, Some(&l3));
+        map_arg_case(rep, ev, p, &k3, &v3, Some(&num(&[], &[2.])));
     }
 }
 
